@@ -155,6 +155,9 @@ Judge(m) ==
     ELSE IF ~v.absLe1 THEN <<"orientation-entry-outside-unit-interval">>
     ELSE IF ~v.detPos THEN <<"orientation-left-handed">>
     ELSE IF v.ortho_e9 > Budget(nUpd'[m], e6) THEN <<"orthonormality-beyond-budget">>
+    \* "replica" textures (grain i an exact copy of grain i mod 3, equal volumes): every step of an update treats the
+    \* grains alike, so copies of one grain stay bit-identical whatever the grain count
+    ELSE IF Has(v, "replicaOK") /\ ~v.replicaOK THEN <<"copies-of-one-grain-diverged">>
     ELSE <<>>
 JudgeAll == LET S == {m \in Touched : Has(Ev.obs, m) /\ Has(Obs(m), "v")} IN
             IF S = {} THEN <<>>
